@@ -35,12 +35,36 @@ class Weird:
     """a term type neither integration knows"""
 
 
-def make_bad(base, cause, slot, integ, phys):
-    """-> (python-level terms for the real API) of a statement that must be rejected, or None if n/a"""
+def failing_index(cause, slot, n):
+    """index (in encoding order s,p,o,g) of the term at which the rejection strikes"""
+    if cause == "arity":
+        return {"s": 1, "p": 2, "o": n - 1, "g": n - 1, "nested": 2}[slot]
+    return {"s": 0, "p": 1, "o": 2, "g": 3, "nested": 2}[slot]
+
+
+def expected_side_effects(prev, ts, fail_at, phys):
+    """MODEL of the unchanged library (the open known finding C20-no-rollback): encoding a term that is not a repeat
+    of the last accepted statement's term mutates repeated_terms / tables; GraphStream.graph() additionally appends
+    the graph-start rows to the flow before the triple is encoded. The rejection leaves a trace iff any term BEFORE
+    the failing one was actually encoded."""
+    if phys == 3:
+        return True
+    for j in range(fail_at):
+        if prev is None or prev[1 + j] != ts[j]:
+            return True
+    return False
+
+
+def make_bad(base, cause, slot, integ, phys, prev=None):
+    """-> (python-level terms for the real API) of a statement that must be rejected, or None if n/a.
+    With prev given, the terms before the failing one repeat the previous accepted statement."""
     conv = pj.terms.to_generic if integ == "generic" else pj.terms.to_rdflib
     bad_lit = ("lit", "9", None, "http://dt/zzz")
     ts = list(base[1:])
     n = len(ts)
+    if prev is not None:
+        k = failing_index(cause, slot, n)
+        ts[:k] = list(prev[1:1 + k])
     if cause == "arity":
         # too short by one term, cut after `slot` terms... the encoders pull terms one by one
         keep = {"s": 1, "p": 2, "o": n - 1, "g": n - 1, "nested": 2}[slot]
@@ -73,7 +97,7 @@ def snapshot(stream):
                           for t in (e.names, e.prefixes, e.datatypes)]), [repr(x) for x in stream.repeated_terms], len(stream.flow)
 
 
-def fault(f: int, cause: int, slot: int, fs: int) -> bool:
+def fault(f: int, cause: int, slot: int, fs: int, rp: bool) -> bool:
     """
     pre: 0 <= f < 3 and 0 <= cause < 3 and 0 <= slot < 5 and fs >= 1
     post: _
@@ -96,6 +120,7 @@ def fault(f: int, cause: int, slot: int, fs: int) -> bool:
         frames = []
         accepted = []
         side_effects = False
+        expected = False
         later_all_raise = True
         prefix_ok = True
         faulted = False
@@ -116,9 +141,15 @@ def fault(f: int, cause: int, slot: int, fs: int) -> bool:
 
         for i, it in enumerate(base):
             if i == fpos:
-                bad = make_bad(it, c, sl, integ, phys)
+                prev = accepted[-1] if (rp and accepted) else None
+                bad = make_bad(it, c, sl, integ, phys, prev)
                 if bad is None:
                     return True
+                ts_neutral = list(it[1:])
+                if prev is not None:
+                    kf = failing_index(c, sl, len(ts_neutral))
+                    ts_neutral[:kf] = list(prev[1:1 + kf])
+                expected = expected_side_effects(accepted[-1] if accepted else None, ts_neutral, failing_index(c, sl, len(ts_neutral)), phys)
                 with notrace():
                     before = snapshot(stream)
                     # bytes written so far must be a decodable prefix of the accepted statements
@@ -132,13 +163,13 @@ def fault(f: int, cause: int, slot: int, fs: int) -> bool:
                     side_effects = snapshot(stream) != before
                 # a caller that simply retries: the same unencodable statement must be rejected again
                 try:
-                    put(make_bad(it, c, sl, integ, phys))
+                    put(bad)   # the very same statement object again
                     retry_accepted = True
                 except Exception:  # noqa: BLE001
                     retry_accepted = False
                 if retry_accepted:
-                    return fin(M, bool(side_effects and known.is_open("C20-no-rollback") and not P.get("ignore_known")) and not P.get("twin"),
-                               f=f, cause=cause, slot=slot, fs=fs)
+                    return fin(M, bool(expected and known.is_open("C20-no-rollback") and not P.get("ignore_known")) and not P.get("twin"),
+                               f=f, cause=cause, slot=slot, fs=fs, rp=rp)
                 with notrace():
                     side_effects = snapshot(stream) != before
                     if done:
@@ -153,7 +184,7 @@ def fault(f: int, cause: int, slot: int, fs: int) -> bool:
                 accepted.append(it)
             except Exception:  # noqa: BLE001
                 if not faulted:
-                    return fin(M, False, f=f, cause=cause, slot=slot, fs=fs)
+                    return fin(M, False, f=f, cause=cause, slot=slot, fs=fs, rp=rp)
             else:
                 if faulted:
                     later_all_raise = False
@@ -166,10 +197,10 @@ def fault(f: int, cause: int, slot: int, fs: int) -> bool:
             except Exception:  # noqa: BLE001
                 clean = False
         ok = prefix_ok and (clean or (later_all_raise and fpos < 2))
-        if not ok and side_effects and known.is_open("C20-no-rollback") and prefix_ok and not P.get("ignore_known"):
-            ok = True  # exactly the open known finding: rejection after encoder state was already mutated
+        if not ok and faulted and expected and known.is_open("C20-no-rollback") and prefix_ok and not P.get("ignore_known"):
+            ok = True  # exactly the open known finding: a term before the failing one had already been encoded
         if P.get("twin"):
             ok = False
     except Exception:  # noqa: BLE001
         ok = False
-    return fin(M, ok, f=f, cause=cause, slot=slot, fs=fs)
+    return fin(M, ok, f=f, cause=cause, slot=slot, fs=fs, rp=rp)
